@@ -30,7 +30,7 @@ SoundPort(j) == LET p == R.pub[j] IN
     [] OTHER -> TRUE
 \* mDNS gather mode: the name instead of the IP; otherwise the address of the socket
 SoundMDNS(j) == LET p == R.pub[j] IN
-  p.type = "host" => IF cfg.mdns = "gather" THEN p.isname /\ p.addr # p.base ELSE ~p.isname /\ p.addr = p.base
+  p.type = "host" => IF cfg.mdns = "gather" THEN p.isname /\ p.addr # p.base ELSE ~p.isname /\ p.addr = PubIP(cfg, p.base)
 \* every eligible interface address yields a host candidate for each enabled transport that has a listener
 Complete(x) == \E j \in Pubs : R.pub[j].type = "host" /\ R.pub[j].base = x[1] /\ TrOf(R.pub[j].net) = x[2]
 NoError == R.err = ""
